@@ -141,3 +141,39 @@ def guarded(fn, seconds=20):
     finally:
         signal.alarm(0)
         signal.signal(signal.SIGALRM, old)
+
+
+def run_suite_with_contracts(rec, props):
+    """Workload: the repository's own tests with the contracts on. A contract that fires there is either too strict
+    or a defect the tests do not assert; events of the given properties become violations."""
+    import json
+    import subprocess
+    import tempfile
+    fd, out = tempfile.mkstemp(suffix=".json")
+    os.close(fd)
+    env = envs.worker_env({"OLVERIF_PYTEST_OUT": out})
+    env["PYTHONPATH"] = os.pathsep.join([envs.REPO, envs.LIB, envs.DEPS])
+    try:
+        p = subprocess.run([sys.executable, "-m", "pytest", "-q", "-p", "no:cacheprovider", "-p", "olverif.pytest_plugin",
+                            "oneliner_tests"], cwd=envs.REPO, env=env, capture_output=True, text=True, timeout=1800)
+        try:
+            data = json.load(open(out))
+        except Exception:
+            rec.inconc("suite-with-contracts-did-not-report")
+            return
+    finally:
+        try:
+            os.unlink(out)
+        except OSError:
+            pass
+    if not os.path.abspath(data.get("oneliner_file", "")).startswith(envs.REPO + os.sep):
+        rec.inconc("suite-with-contracts-imported-another-tree")
+        return
+    ev = data["summary"].get("evaluations", {})
+    for k, v in ev.items():
+        rec.count("suite-run contract evaluations:" + k, v)
+    for e in data.get("events", []):
+        if e.get("prop") in props:
+            rec.violation("suite-case:" + str(e.get("detail")), {"kind": "suite", "input": e.get("input")}, e)
+    rec.count("suite-run-with-contracts")
+    rec.ok(("suite-with-contracts", tuple(sorted(props))), nontrivial=True)
